@@ -48,8 +48,55 @@ def run(ck):
 # -------------------------------------------------------------------------------- T1
 
 
+def slot_layout(ck, rule):
+    """(key component indices, value component index, arity) of a bucket slot `Option<(.., key, .., entry, ..)>`,
+    read from the type of TranspositionBucket::entries; the value is the unique TranspositionEntry component."""
+    adt = ck.adt(BUCKET, rule)
+    tys = [f["ty"] for f in adt["variants"][0]["fields"] if f["name"] == "entries"]
+    if not tys:
+        ck.missing(rule, "field TranspositionBucket::entries")
+        raise AnchorMissingLocal()
+    ty = tys[0]
+    i = ty.find("Option<(")
+    if i < 0:
+        ck.missing(rule, "slot type Option<(key, entry)> in %s" % ty)
+        raise AnchorMissingLocal()
+    j = i + len("Option<(")
+    depth, comps, cur = 0, [], ""
+    while j < len(ty):
+        c = ty[j]
+        if c in "(<[":
+            depth += 1
+        elif c in ")>]":
+            if depth == 0:
+                break
+            depth -= 1
+        if c == "," and depth == 0:
+            comps.append(cur.strip())
+            cur = ""
+        else:
+            cur += c
+        j += 1
+    if cur.strip():
+        comps.append(cur.strip())
+    vals = [k for k, c in enumerate(comps) if c.endswith("TranspositionEntry")]
+    keys = [k for k, c in enumerate(comps) if c == "u64"]
+    if len(vals) != 1 or not keys:
+        ck.missing(rule, "one TranspositionEntry component and a u64 key component in the slot type (%s)" % comps)
+        raise AnchorMissingLocal()
+    return keys, vals[0], len(comps)
+
+
+class AnchorMissingLocal(Exception):
+    pass
+
+
 def t1_key_check(ck):
     prog = ck.prog
+    try:
+        key_idx, val_idx, _n = slot_layout(ck, "T1")
+    except AnchorMissingLocal:
+        return
     find = ck.body(BUCKET + "::find", "T1")
     bodies = [find] + [prog.body(n) for n in prog.closures_of(find.name)]
     hits = 0
@@ -75,23 +122,23 @@ def t1_key_check(ck):
                 continue
             hits += 1
             val = r[2][0]
-            if not (val[0] == "field" and val[2] == "1"):
-                ck.fail("T1", b.name, b.where(), "hit returns %s, which is not the value part (.1) of a slot" % show(val))
+            if not (val[0] == "field" and val[2] == str(val_idx)):
+                ck.fail("T1", b.name, b.where(), "hit returns %s, which is not the value part (.%d) of a slot" % (show(val), val_idx))
                 continue
             slot = val[1]
-            want = ("field", slot, "0")
+            wants = [("field", slot, str(k)) for k in key_idx]
             good = False
             seen = []
             for c, taken in p.conds:
                 if c[0] == "bin" and c[1] == "Eq" and taken != 0:
                     a, bb_ = c[2], c[3]
                     seen.append(show(c))
-                    if (a == want and is_key(bb_)) or (bb_ == want and is_key(a)):
+                    if (a in wants and is_key(bb_)) or (bb_ in wants and is_key(a)):
                         good = True
                 if c[0] == "call" and c[1].endswith("::eq") and taken != 0:
                     a, bb_ = c[2]
                     seen.append(show(c))
-                    if (a == want and is_key(bb_)) or (bb_ == want and is_key(a)):
+                    if (a in wants and is_key(bb_)) or (bb_ in wants and is_key(a)):
                         good = True
             ck.req(good, "T1", b.name, b.where(),
                    "a path returns Some(&slot.1) without the guard `slot.0 == hash` on the full, unmodified key parameter (guards on this path: %s)" % (seen or "none"),
@@ -170,6 +217,13 @@ SLOT_TY = "core::option::Option<(u64, weechess_engine::searcher::TranspositionEn
 def t3_never_emptied(ck):
     prog = ck.prog
     ior = ck.body(BUCKET + "::insert_or_replace", "T3")
+    try:
+        key_idx, val_idx, arity = slot_layout(ck, "T3")
+    except AnchorMissingLocal:
+        return
+    entry_params = [i for i in range(1, ior.arg_count + 1) if ior.local_ty(i).endswith("TranspositionEntry")]
+    ck.req(len(entry_params) == 1, "T3.params", "insert_or_replace", ior.where(), "insert_or_replace does not take exactly one TranspositionEntry")
+    entry_param = entry_params[0] if entry_params else 3
     # (a) every slot write in insert_or_replace stores Some((hash, entry)) built from the parameters
     writes = 0
     for p in decision_table(prog, ior):
@@ -178,7 +232,8 @@ def t3_never_emptied(ck):
                 continue
             place, val = e[1], e[2]
             writes += 1
-            good = val == ("agg", "core::option::Option::Some", (("agg", "tuple", (("param", 2), ("param", 3))),))
+            good = val[0] == "agg" and val[1] == "core::option::Option::Some" and len(val[2]) == 1 and val[2][0][0] == "agg" and val[2][0][1] == "tuple" \
+                and len(val[2][0][2]) == arity and any(val[2][0][2][k] == ("param", 2) for k in key_idx) and val[2][0][2][val_idx] == ("param", entry_param)
             ck.req(good, "T3.write", "insert_or_replace@bb%d" % e[3], ior.where(),
                    "slot written with %s instead of Some((hash, entry)) built from the unmodified parameters" % show(val),
                    "slot = Some((hash, entry))")
